@@ -256,6 +256,31 @@ def gen(repo):
         if not re.search(r"Handler\s*\{\s*pt\.handler\s*\}", cd):
             raise TranslateError("collectDueLocked: re-armed record does not hold pt.handler")
     periodic_guard = has_flag_member
+    # is the guard closed on EVERY successful cancel of a periodic entry, or only on the transition `!entry.canceled -> canceled`?
+    # (drain() sweeps set entry.canceled without closing the guard, so a conditional close leaves a window)
+    guard_unconditional = False
+    if has_flag_member:
+        mt = re.search(r"if\s*\(\s*!\s*periodicIt->second\.canceled\s*\)\s*\{", cb)
+        if not mt:
+            raise TranslateError("TimerService::cancel: `if (!periodicIt->second.canceled) {` block not found")
+        t_open = mt.end() - 1
+        t_close = cxxscan.match_brace(cb, t_open)
+        mo = re.search(r"if\s*\(\s*periodicIt\s*!=\s*_periodicTimers\.end\s*\(\s*\)\s*\)\s*\{", cb)
+        if not mo:
+            raise TranslateError("TimerService::cancel: `if (periodicIt != _periodicTimers.end()) {` block not found")
+        o_open = mo.end() - 1
+        o_close = cxxscan.match_brace(cb, o_open)
+        stores = [m.start() for m in re.finditer(r"cancelFlag->store\s*\(\s*true", cb)]
+        if len(stores) != 1 or not (o_open < stores[0] < o_close):
+            raise TranslateError("TimerService::cancel: expected exactly one cancelFlag->store(true) inside the periodic-entry block")
+        inside_transition = t_open < stores[0] < t_close
+        # any other condition around the store (besides the null test of the shared_ptr itself) is not a recognised shape
+        between = cb[t_close:stores[0]] if not inside_transition else cb[t_open:stores[0]]
+        conds = re.findall(r"\bif\s*\(([^)]*)\)", between)
+        conds = [x.strip() for x in conds if x.strip() != "periodicIt->second.cancelFlag"]
+        if conds:
+            raise TranslateError("TimerService::cancel: the guard store is under an unrecognised condition: %s" % conds)
+        guard_unconditional = not inside_transition
 
     out = HEADER % (fw + ", " + ft + ", " + fk)
     out += "namespace Iora.Gen.Timer\n"
@@ -295,5 +320,8 @@ def gen(repo):
     out += "def svcStopPublishesStoppedUnderLock : Bool := %s\n" % _bool(stop_publishes_locked)
     out += "/-- every invocation of a periodic handler checks a flag that `cancel()` sets before it erases the periodic entry (F41) -/\n"
     out += "def svcPeriodicCancelGuard : Bool := %s\n" % _bool(periodic_guard)
+    out += "/-- `cancel()` closes the guard for every periodic entry it finds, not only on the transition `!entry.canceled` (a `drain` sweep sets\n"
+    out += "`entry.canceled` without closing the guard) -/\n"
+    out += "def svcCancelClosesGuardAlways : Bool := %s\n" % _bool(guard_unconditional)
     out += "end Iora.Gen.Timer\n"
     return "IoraModel/Gen/Timer.lean", out
